@@ -398,7 +398,8 @@ const XMLCh* ListDatatypeValidator::getCanonicalRepresentation(const XMLCh*     
         }
     }
    
-    XMLSize_t retBufSize = 2 * XMLString::stringLen(rawData);
+    // room for the terminator even when the list is empty
+    XMLSize_t retBufSize = 2 * XMLString::stringLen(rawData) + 2;
     XMLCh* retBuf = (XMLCh*) toUse->allocate(retBufSize * sizeof(XMLCh));
     retBuf[0] = 0;
     XMLCh* retBufPtr = retBuf;
@@ -411,7 +412,7 @@ const XMLCh* ListDatatypeValidator::getCanonicalRepresentation(const XMLCh*     
             XMLCh* itemCanRep = (XMLCh*) itemDv->getCanonicalRepresentation(tokenVector->elementAt(i), toUse, false);
             XMLSize_t itemLen = XMLString::stringLen(itemCanRep); 
 
-            if(retBufPtr+itemLen+2 >= retBuf+retBufSize)
+            while(retBufPtr+itemLen+2 >= retBuf+retBufSize)
             {
                 // need to resize
                 XMLCh * oldBuf = retBuf;
